@@ -512,7 +512,19 @@ class Engine:
 
     @cached_property
     def dechunker(self) -> str:
-        c = [q for q in self.res.callees(self.socket_receiver) if q.startswith(self.socket_cls)]
+        # the wrapper method the receiver hands the received bytes to - directly, or through a private carry-over helper (then the innermost one)
+        seen, todo = [], [self.socket_receiver]
+        while todo:
+            x = todo.pop()
+            for q in sorted(self.res.callees(x)):
+                if q.startswith(self.socket_cls) and q != self.socket_receiver and q not in seen:
+                    seen.append(q)
+                    todo.append(q)
+        c = seen
+        if len(seen) > 1:
+            # the chunk decoder is the one with the chunk loop; a carry-over helper in front of it or a decompression helper behind it has none
+            loops = [q for q in seen if any(isinstance(n, ast.While) for n in walk_no_nested(self.repo.func(q).node))]
+            c = loops if len(loops) == 1 else [q for q in self.res.callees(self.socket_receiver) if q.startswith(self.socket_cls)]
         return self._one("dechunker", c)
 
     # ------------------------------------------------------------------ decoder facts used by table rules
